@@ -425,12 +425,26 @@ func (f *Flooder) floodAdvertisementEncrypted(
 	encPath *protocol.EncryptedData,
 	seenBy []identity.AgentID,
 ) {
+	// The seen-by list is counted in one byte on the wire. A list that no
+	// longer fits must never be written: the count would wrap and the
+	// receiver would read a shorter (for 256 entries: empty) list. The
+	// advertisement has reached the end of its travel.
+	if len(seenBy) > maxAgentListLen {
+		return
+	}
+
 	// Extend the path if it's plaintext (normal case)
 	// For encrypted paths (legacy), forward as-is
 	fwdEncPath := encPath
 	if encPath != nil && !encPath.Encrypted {
 		// Decode existing path, prepend our ID, re-encode
 		existingPath, _ := protocol.DecodePath(encPath.Data)
+		if len(existingPath)+1 > maxAgentListLen {
+			// Same for the path: with 256 entries the receiver would decode
+			// an empty path, and the hop limit (up to 255) could not stop
+			// the advertisement any more.
+			return
+		}
 		newPath := make([]identity.AgentID, len(existingPath)+1)
 		newPath[0] = f.localID
 		copy(newPath[1:], existingPath)
@@ -518,6 +532,10 @@ func (f *Flooder) getLocalDisplayName() string {
 }
 
 const (
+	// maxAgentListLen is the number of agent IDs a path or a seen-by list can
+	// carry on the wire: their length is written as a single byte.
+	maxAgentListLen = 255
+
 	// maxRoutesPerAdvertise is the number of routes one ROUTE_ADVERTISE frame
 	// can carry: the wire format counts them in a single byte.
 	maxRoutesPerAdvertise = 255
@@ -828,6 +846,11 @@ func (f *Flooder) SendFullTable(peerID identity.AgentID) {
 			path = append([]identity.AgentID{f.localID}, domainOriginRoutes[0].Path...)
 		default:
 			path = []identity.AgentID{f.localID}
+		}
+		if len(path) > maxAgentListLen {
+			// The path does not fit its one-byte count field any more; the
+			// new peer is farther from the origin than any hop limit allows.
+			continue
 		}
 
 		// Get display name for origin agent.
